@@ -99,7 +99,7 @@ def real_type_ordered(t, first=None):
     mk = lambda req, opt: make_typed_dict(required_fields=req, optional_fields=opt)  # noqa: E731
     if t["k"] == "union" and first is not None:
         ms = sorted(t["u"], key=canon)
-        ms = ms[first:] + ms[:first]
+        ms = [ms[i] for i in first] if isinstance(first, list) else ms[first:] + ms[:first]      # a permutation / a rotation
         return typing.Union[tuple(absmodel.real_type(m, make_td=mk) for m in ms)]
     return absmodel.real_type(t, make_td=mk)
 
@@ -142,12 +142,14 @@ def gen_jobs(tier, seed, env_text):
     pairs = [a + "+" + b for a in SINGLES for b in SINGLES]
     base = SINGLES + ["DEFAULT"]
 
-    def add_types(label, types, chains, rotations=False):
+    def add_types(label, types, chains, rotations=False, permutations=False):
         n0 = len(jobs)
         for t in types:
             firsts = [None]
             if rotations and t["k"] == "union":
                 firsts = list(range(len(t["u"])))
+            if permutations and t["k"] == "union" and len(t["u"]) <= 5:
+                firsts = [list(p) for p in itertools.permutations(range(len(t["u"])))]
             for f in firsts:
                 jobs.append({"tid": len(jobs) + 1, "kind": "type", "t": t, "first": f, "chains": chains})
         plan.append({"family": label, "types": len(jobs) - n0, "chains": len(chains)})
@@ -184,6 +186,39 @@ def gen_jobs(tier, seed, env_text):
                Ty("generator", "", [c, NONE_, NONE_]), Ty("tuple", "", [c, INT_])]
     lk += [U_(*look[:6], INT_), U_(*look), U_(look[0], look[1], Ty("cls", "mtfx.shapes.A"), Ty("cls", "mtfx.shapes.B"), INT_, STR_, NONE_)]
     add_types("application classes named like typing constructs, in every shape", lk, base + ["REC+RLU", "RCD+REC"] if False else base, rotations=True)
+    # members that COINCIDE once the rewriter has worked inside them (a nested union it collapses, a nested empty container it
+    # drops), under wrappers of arity 1..6, next to an empty container, a non-empty one of its kind and a plain class - in every
+    # rotation: a rewriter that looks at its own output must not mistake the parts of one member for members, nor lose count
+    FLOAT_ = Ty("cls", "float")
+    L_ = lambda x: Ty("list", "", [x])  # noqa: E731
+    coincide = [(U_(Ty("set", "", [ANY_]), Ty("set", "", [INT_])), Ty("set", "", [INT_])),          # REC inside
+                (U_(INT_, STR_, FLOAT_), ANY_),                                                    # RLU2 inside
+                (U_(INT_, STR_, FLOAT_, NONE_, Ty("cls", "bytes"), Ty("cls", "bool")), ANY_),        # RLU5 inside
+                (U_(Ty("dict", "", [STR_, INT_]), Ty("dict", "", [STR_, STR_])), Ty("dict", "", [STR_, U_(INT_, STR_)])),   # RCD inside
+                (U_(Ty("cls", "mtfx.shapes.B2"), Ty("cls", "mtfx.shapes.B3")), Ty("cls", "mtfx.shapes.B"))]             # MSCB inside
+    wrapn = [lambda x: L_(x), lambda x: Ty("tuple", "", [L_(x)]), lambda x: Ty("dict", "", [STR_, x]),
+             lambda x: Ty("tuple", "", [x, INT_, INT_]), lambda x: Ty("tuple", "", [x] + [INT_] * 5), lambda x: Ty("tuple", "", [x] * 6),
+             lambda x: Ty("tuple", "", [Ty("tuple", "", [x]), Ty("tuple", "", [x, x]), Ty("tuple", "", [x, x, x])])]
+    tails = [[], [Ty("dict", "", [ANY_, ANY_]), INT_], [Ty("dict", "", [ANY_, ANY_]), INT_, Ty("dict", "", [STR_, INT_])],
+             [Ty("list", "", [ANY_]), Ty("cls", "mtfx.shapes.A"), Ty("list", "", [STR_])]]
+    coin = []
+    for before, after in coincide:
+        for w in wrapn:
+            for tl in tails:
+                coin.append(U_(w(before), w(after), *tl))
+                coin.append(U_(w(before), *tl))
+    add_types("members that coincide after the rewriter has worked inside them, under wrappers of arity 1..6, every order of the members",
+              coin, base, rotations=True, permutations=True)
+    # more tuple shapes than a union may have members, the element classes related by inheritance, the narrower / the wider first
+    rel = [(Ty("cls", "bool"), INT_), (Ty("cls", "mtfx.shapes.B"), Ty("cls", "mtfx.shapes.A")), (Ty("cls", "mtfx.shapes.D"), Ty("cls", "mtfx.shapes.C"))]
+    tupsh = []
+    for sub, sup in rel:
+        for first, rest in ((sub, sup), (sup, sub)):
+            for n in (3, 6, 7):
+                tupsh.append(U_(*[Ty("tuple", "", [first] + [rest] * i) for i in range(n)]))
+                tupsh.append(U_(Ty("tuple", "", []), *[Ty("tuple", "", [first] + [rest] * i) for i in range(n)]))
+                tupsh.append(U_(*[Ty("tuple", "", [first] * (i + 1)) for i in range(n - 1)], Ty("tuple", "", [first, rest])))
+    add_types("more tuple shapes than a union may have members, element classes related by inheritance", tupsh, base, rotations=True)
     if tier == "quick":
         add_types("t1small: atoms, containers, all 2-unions (exhaustive)", t1small, base)
         add_types("t1small x all ordered pairs of rewriters (sampled types)", rng.sample(t1small, 300), pairs)
